@@ -477,8 +477,12 @@ class RegexCompiler:
         self, body: Node, min_count: int, greedy: bool, need_advance_check: bool
     ):
         """Compile {n,} quantifier."""
-        # Emit body min_count times
+        capture_groups = self._find_capture_groups(body)
+
+        # Emit body min_count times; every iteration starts with the captures
+        # of the body cleared
         for _ in range(min_count):
+            self._emit_capture_reset(capture_groups)
             self._compile_node(body)
 
         # Then emit * for the rest
@@ -493,13 +497,31 @@ class RegexCompiler:
         need_advance_check: bool,
     ):
         """Compile {n,m} quantifier."""
-        # Emit body min_count times (required)
+        capture_groups = self._find_capture_groups(body)
+
+        # Required iterations
         for _ in range(min_count):
+            self._emit_capture_reset(capture_groups)
             self._compile_node(body)
 
-        # Emit body (max_count - min_count) times (optional)
-        for _ in range(max_count - min_count):
-            self._compile_optional(body, greedy)
+        # Optional iterations nest: x{0,2} is (?:x(?:x)?)?.  Giving up one
+        # iteration gives up the later ones too, so every split leaves to the
+        # common end; an optional iteration that consumes nothing is rejected.
+        split_op = Op.SPLIT_FIRST if greedy else Op.SPLIT_NEXT
+        optional = max_count - min_count
+        reg = self._allocate_register() if need_advance_check and optional else None
+        splits = []
+        for _ in range(optional):
+            splits.append(self._emit(split_op, 0))
+            if reg is not None:
+                self._emit(Op.SET_POS, reg)
+            self._emit_capture_reset(capture_groups)
+            self._compile_node(body)
+            if reg is not None:
+                self._emit(Op.CHECK_ADVANCE, reg)
+        end = self._current_offset()
+        for split_idx in splits:
+            self._patch(split_idx, split_op, end)
 
     def _allocate_register(self) -> int:
         """Allocate a register for position tracking."""
